@@ -107,7 +107,18 @@ def child_main(db, logpath, crash_at, scenario, seed, slow=False):
         problem.data_store = store
         log({"ev": "created"})
         state["armed"] = True            # the property starts once the store has been created for the run
-        if scenario in ("serial", "parallel", "contended"):
+        if scenario == "presync":
+            # algorithms of the Monte-Carlo / CMA-ES / CEM family record and synchronise their designs BEFORE evaluating them
+            from artap.algorithm import DummyAlgorithm
+            alg = DummyAlgorithm(problem)
+            alg.options['max_processes'] = 1
+            inds = [Individual([round(rng.uniform(-5, 5), 6), round(rng.uniform(-5, 5), 6)]) for _ in range(3)]
+            for i in inds:
+                problem.individuals.append(i)
+                store.sync_individual(i)
+            alg.evaluate(inds)
+            store.sync_all()
+        elif scenario in ("serial", "parallel", "contended"):
             from artap.algorithm import DummyAlgorithm
             alg = DummyAlgorithm(problem)
             alg.options['max_processes'] = 2 if scenario == "parallel" else 1
